@@ -121,3 +121,11 @@ def real_value_constraints():
     except TypeError as e:
         return True, 'Real(1.5, subtypeSpec=ValueRangeConstraint(1.0, 2.0)) raises TypeError: %s' % e
     return False, 'REAL (1.0..2.0) admits 1.5'
+
+
+def ber_real_nr3():
+    from pyasn1.type import univ
+    from pyasn1.codec.ber import encoder
+    e = encoder.encode(univ.Real((123, 10, 11)))
+    body = e[3:]
+    return b'.' not in body.split(b'E')[0], 'BER encoding of Real((123, 10, 11)) has contents %r' % bytes(e[2:])
